@@ -115,18 +115,34 @@ def cmpRow (c' : Circuit) (nodes : Array CNode) (bind : Nat → Option Bind) (e 
 def rowIs (c' : Circuit) (nodes : Array CNode) (bind : Nat → Option Bind) (e : Nat) (cd : Cond) (a : Arg) (pos : Bool) : Bool :=
   flagRow c' nodes bind e cd a pos || cmpRow c' nodes bind e cd a pos
 
-/-- decider `e` of the uncut circuit is the latch written with `write(1, set=s, reset=r)` (set first): rows
-`(feedback AND NOT r) OR s`, or with the comparisons inlined `s OR (feedback AND NOT r)` -/
-def latchIs (c c' : Circuit) (nodes : Array CNode) (bind : Nat → Option Bind) (e : Nat) (ty : Sig) (s r : Arg) : Bool :=
+/-- the rows of a set-priority latch: `(feedback AND NOT r) OR s`, or with the comparisons inlined
+`s OR (feedback AND NOT r)` -/
+def latchRowsSet (c' : Circuit) (nodes : Array CNode) (bind : Nat → Option Bind) (e : Nat) (ty : Sig) (s r : Arg)
+    (conds : List Cond) : Bool :=
+  match conds with
+  | [c1, c2, c3] =>
+    (fbRow c' e ty c1 && !c1.usesEach && c2.isAnd && rowIs c' nodes bind e c2 r false && !c3.isAnd && rowIs c' nodes bind e c3 s true) ||
+    (rowIs c' nodes bind e c1 s true && !c2.isAnd && fbRow c' e ty c2 && !c2.usesEach && c3.isAnd && rowIs c' nodes bind e c3 r false)
+  | _ => false
+
+/-- the rows of a reset-priority latch: `(s AND NOT r) OR (feedback AND NOT r)` -/
+def latchRowsReset (c' : Circuit) (nodes : Array CNode) (bind : Nat → Option Bind) (e : Nat) (ty : Sig) (s r : Arg)
+    (conds : List Cond) : Bool :=
+  match conds with
+  | [c1, c2, c3, c4] =>
+    rowIs c' nodes bind e c1 s true && c2.isAnd && rowIs c' nodes bind e c2 r false &&
+      !c3.isAnd && fbRow c' e ty c3 && !c3.usesEach && c4.isAnd && rowIs c' nodes bind e c4 r false
+  | _ => false
+
+/-- decider `e` of the uncut circuit is the latch written with `write(1, set=s, reset=r)` (`setPrio`: set first) or
+`write(1, reset=r, set=s)` (reset priority) -/
+def latchIs (c c' : Circuit) (nodes : Array CNode) (bind : Nat → Option Bind) (e : Nat) (ty : Sig) (s r : Arg)
+    (setPrio : Bool := true) : Bool :=
   argBelow nodes.size s && argBelow nodes.size r &&
   match c.kind e with
   | .decider cfg =>
     (match cfg.outs with | [o] => isConstOneOut o ty | _ => false) &&
-    (match cfg.conds with
-     | [c1, c2, c3] =>
-       (fbRow c' e ty c1 && !c1.usesEach && c2.isAnd && rowIs c' nodes bind e c2 r false && !c3.isAnd && rowIs c' nodes bind e c3 s true) ||
-       (rowIs c' nodes bind e c1 s true && !c2.isAnd && fbRow c' e ty c2 && !c2.usesEach && c3.isAnd && rowIs c' nodes bind e c3 r false)
-     | _ => false)
+    (if setPrio then latchRowsSet c' nodes bind e ty s r cfg.conds else latchRowsReset c' nodes bind e ty s r cfg.conds)
   | _ => false
 
 /-- arithmetic combinator `m` multiplies the latch state shown by `e` with the constant `k` (the latch value) -/
@@ -329,12 +345,13 @@ def discoverRing (c : Circuit) (nodes : Array CNode) (s : Sig) (m : Nat) (d : Ar
       | none => none)
   | none => none
 
-/-- deciders on `ty` with three rows and a constant-1 output that read their own output -/
-def latchCands (c : Circuit) (ty : Sig) : List Nat :=
+/-- deciders on `ty` with three (set priority) or four (reset priority) rows and a constant-1 output that read their
+own output -/
+def latchCands (c : Circuit) (ty : Sig) (rows : Nat := 3) : List Nat :=
   (List.range c.n).filter (fun i =>
     match c.kind i with
     | .decider cfg =>
-      cfg.conds.length == 3 && (match cfg.outs with | [o] => isConstOneOut o ty | _ => false) &&
+      cfg.conds.length == rows && (match cfg.outs with | [o] => isConstOneOut o ty | _ => false) &&
         (c.selProducers i RG).contains i
     | _ => false)
 
@@ -369,6 +386,7 @@ def proposeLatch (c : Circuit) (nodes : Array CNode) (e : Nat) (ty : Sig) (s r :
        let fbFirst := (match c1.first with | .ref (.sig t) _ => t == ty | _ => false) && c2.isAnd
        if fbFirst then proposeRow c nodes e c2 r ++ proposeRow c nodes e c3 s
        else proposeRow c nodes e c1 s ++ proposeRow c nodes e c3 r
+     | [c1, c2, _, _] => proposeRow c nodes e c1 s ++ proposeRow c nodes e c2 r
      | _ => [])
   | _ => []
 
